@@ -323,6 +323,12 @@ let step_preds : (string * (vconfig -> fstep -> bool)) list = [
   ("c02_zero_window_waker", c02_zero_window_waker);
   ("c02_timer_ok", c02_timer_ok);
   ("c02_rto_armed", c02_rto_armed);
+  ("c17_synack_ok", c17_synack_ok);
+  ("c17_fin_after_data_ok", c17_fin_after_data_ok);
+  ("c17_fin_number_step_ok", c17_fin_number_step_ok);
+  ("c17_reset_ok", c17_reset_ok);
+  ("c03_ready_closed_ok", c03_ready_closed_ok);
+  ("c03_no_hang_ok", c03_no_hang_ok);
   (* classifiers of known classes: OK = the step is in the class *)
   ("c02_d2_class_neg", (fun c st -> not (c02_d2_class c st)));
   ("c02_d8_class_neg", (fun c st -> not (c02_d8_class c st)));
@@ -332,6 +338,10 @@ let step_preds : (string * (vconfig -> fstep -> bool)) list = [
 let trace_preds : (string * (vconfig -> fstep list -> bool)) list = [
   ("c10_step_ok", c10_step_ok);
   ("c02_prompt", c02_prompt);
+  ("c17_fin_seq_ok", c17_fin_seq_ok);
+  ("c17_peer_fin_ok", c17_peer_fin_ok);
+  ("c17_reset_trace_ok", c17_reset_trace_ok);
+  ("c03_after_death_ok", c03_after_death_ok);
   (* classifiers of known classes: OK = the trace is in the class *)
   ("c10_kf2_class", c10_kf2_class);
   ("c10_closed_pending_class", c10_closed_pending_class);
@@ -353,7 +363,18 @@ let run_vsock_pred toks =
      | None, None -> failwith ("vsock_pred: unknown predicate " ^ name))
   | _ -> failwith "vsock_pred: bad case"
 
+(* vsock_pred_all <name,name,...> : <case tokens> | <observations> — first failing predicate *)
+let run_vsock_pred_all toks =
+  match toks with
+  | names :: ":" :: rest ->
+    let rec go = function
+      | [] -> "OK"
+      | n :: ns -> (match run_vsock_pred (n :: rest) with "OK" -> go ns | r -> r) in
+    go (String.split_on_char ',' names)
+  | _ -> failwith "vsock_pred_all: bad case"
+
 let dispatch = function
   | "vsock_pred" :: r -> Some (run_vsock_pred r)
+  | "vsock_pred_all" :: r -> Some (run_vsock_pred_all r)
   | "vsock" :: r -> Some (run_vsock r)
   | _ -> None
